@@ -525,6 +525,189 @@ theorem driveRune_spec (st0 : PSt) (T : Table) (sch : List Slot) (s : PState) (a
   | st x => exact ⟨acc1, rfl, e2⟩
   | stop => exact ⟨acc1, rfl, e2⟩
 
+/-! ### the hand-overs are the CSI items the automaton delivers with parameters -/
+
+def handed1 : Seq → List (List (List Int))
+  | .csi _ ps _ => if ps.isEmpty then [] else [ps]
+  | _ => []
+
+/-- The `Parameters` of the CSI items delivered with parameters (non-nil), in order. -/
+def handed (out : List Seq) : List (List (List Int)) := out.flatMap handed1
+
+theorem handed_append (a b : List Seq) : handed (a ++ b) = handed a ++ handed b := by
+  simp [handed, List.flatMap_append]
+
+theorem decodeLoop_ne_nil (bs : List Rune) (ps : Int) (param : List Int) (acc : List (List Int)) :
+    decodeLoop bs ps param acc ≠ [] := by
+  induction bs generalizing ps param acc with
+  | nil => simp [decodeLoop]
+  | cons b rest ih =>
+    simp only [decodeLoop]
+    split
+    · exact ih _ _ _
+    · split <;> exact ih _ _ _
+
+theorem decodeParams_isEmpty (ps : List Rune) : (decodeParams ps).isEmpty = ps.isEmpty := by
+  unfold decodeParams
+  split
+  · rename_i h; simp [h]
+  · rename_i h
+    have := decodeLoop_ne_nil ps 0 [] []
+    simp only [Bool.not_eq_true] at h
+    rw [h]
+    cases hd : decodeLoop ps 0 [] [] with
+    | nil => exact absurd hd this
+    | cons x xs => rfl
+
+theorem semOps_csiOps_eq (params : List Rune) (a : List (List Nat)) (p : List Nat) :
+    semOps (csiOps params) a p =
+      if params.isEmpty then [] else [(decodeParams params).map (·.map enc)] := by
+  unfold csiOps decodeParams
+  split
+  · rfl
+  · have := semOps_loopOps params 0 [] []
+    simp only [List.map_nil] at this
+    simp only [List.cons_append, List.nil_append, semOps, this]
+
+/-- One statement: as many hand-overs recorded as CSI items with parameters emitted (0 or 1), with
+    the same `Parameters`. -/
+theorem act_handed (a : Act) (r : Nat) (s : PState) :
+    (semOps (actOps a s) [] []).map (fun _ => decodeParams s.params) = handed (applyAct a r s).2 := by
+  cases a
+  case csiDispatch =>
+    simp only [actOps, semOps_csiOps_eq, applyAct, handed, List.flatMap_cons, List.flatMap_nil,
+      List.append_nil, handed1, decodeParams_isEmpty]
+    split <;> rfl
+  case hook =>
+    simp only [actOps, semOps, List.map_nil, applyAct]
+    split
+    · rfl
+    · split <;> rfl
+  case runExit =>
+    simp only [actOps, semOps, List.map_nil, applyAct]
+    split
+    · rename_i f _; cases f <;> rfl
+    · rfl
+  case runExitIfSet =>
+    simp only [actOps, semOps, List.map_nil, applyAct]
+    split
+    · rename_i f _; cases f <;> rfl
+    · rfl
+  case runExitIfSetST =>
+    simp only [actOps, semOps, List.map_nil, applyAct]
+    split
+    · rename_i f _; cases f <;> rfl
+    · rfl
+  case execute =>
+    simp only [actOps, semOps, List.map_nil, applyAct]
+    split <;> rfl
+  all_goals rfl
+
+theorem runActs_cons (a : Act) (rest : List Act) (hr : isRet a = false) (r : Nat) (s : PState)
+    (out : List Seq) (n : Next) :
+    runActs (a :: rest) (.rune r) s out n =
+      runActs rest (.rune r) (applyAct a r s).1 (out ++ (applyAct a r s).2) n := by
+  cases a <;> first | (cases hr; done) | simp [runActs]
+
+/-- One statement of the walk keeps the invariant and records the hand-overs of `semOps`. -/
+theorem driveOps_winv (st0 : PSt) (a : Act) (s : PState) (sch : List Slot) (acc : Acc) (h : WInv st0 acc) :
+    ∃ acc1 sch1, driveOps (decodeParams s.params) (actOps a s) sch acc = some (acc1, sch1) ∧ WInv st0 acc1 ∧
+      acc1.views = acc.views ++ (semOps (actOps a s) [] []).map (fun x => ⟨decodeParams s.params, x⟩) := by
+  obtain ⟨acc1, sch1, e1, e2, e3, e4⟩ :=
+    driveOps_spec st0 (decodeParams s.params) (actOps a s) .idle sch acc [] [] (okOps_actOps a s) h.a h.idle
+  refine ⟨acc1, sch1, e1, ⟨e2, e3, ?_, driveOps_cov _ _ _ _ _ h.cov e1⟩, e4⟩
+  intro v hv
+  rw [e4] at hv
+  rcases List.mem_append.1 hv with hv | hv
+  · exact h.good v hv
+  · obtain ⟨x, hx, rfl⟩ := List.mem_map.1 hv
+    exact semOps_actOps a s [] [] x hx
+
+/-- Walking a row records exactly the hand-overs of the items `runActs` emits for it. -/
+theorem driveActs_views (st0 : PSt) (acts : List Act) (r : Nat) (s : PState) (sch : List Slot) (acc : Acc)
+    (h : WInv st0 acc) (res : Acc × List Slot) (hd : driveActs acts r s sch acc = some res)
+    (out : List Seq) (n : Next) (V : List (List (List Int)))
+    (hV : acc.views.map (·.auto) = V ++ handed out) :
+    res.1.views.map (·.auto) = V ++ handed (runActs acts (.rune r) s out n).2.1 := by
+  induction acts generalizing s sch acc out with
+  | nil =>
+    simp only [driveActs, Option.some.injEq] at hd
+    subst hd
+    simpa [runActs] using hV
+  | cons a rest ih =>
+    obtain ⟨acc1, sch1, e1, w1, v1⟩ := driveOps_winv st0 a s sch acc h
+    cases hr : isRet a with
+    | true =>
+      cases a <;> try (cases hr; done)
+      rename_i n'
+      simp only [driveActs, isRet, Bool.true_and, runActs] at hd ⊢
+      cases hig : s.ignoreST with
+      | true =>
+        simp only [hig, if_true, Option.some.injEq] at hd ⊢
+        subst hd
+        exact hV
+      | false =>
+        simp only [hig, Bool.false_eq_true, if_false, actOps, driveOps, applyAct] at hd ⊢
+        exact ih s sch acc h hd out hV
+    | false =>
+      simp only [driveActs, hr, Bool.false_and, Bool.false_eq_true, if_false, e1] at hd
+      rw [runActs_cons a rest hr]
+      refine ih _ sch1 acc1 w1 hd _ ?_
+      rw [v1, List.map_append, hV, handed_append, List.append_assoc, ← act_handed a r s]
+      simp only [List.map_map]
+      rfl
+
+theorem runFn_out_eq (f : StateFn) (i : Inp) (s : PState) :
+    (runFn f i s).2.1 = (runActs (f.row i).1 i s [] (f.row i).2).2.1 := by
+  simp only [runFn]
+
+theorem handed_finish (s : PState) (out : List Seq) (n : Next) : handed (Model.Parser.finish s out n).out = handed out := by
+  cases n <;> simp [Model.Parser.finish, handed, handed1]
+
+theorem handed_step (T : Table) (s : PState) (i : Inp) :
+    handed (Model.Parser.step T s i).out =
+      handed (runFn T.anywhere i s).2.1 ++
+        (match (runFn T.anywhere i s).2.2 with
+         | .dispatch => handed (runFn (T.fn (runFn T.anywhere i s).1.state) i (runFn T.anywhere i s).1).2.1
+         | _ => []) := by
+  unfold Model.Parser.step
+  rcases hA : runFn T.anywhere i s with ⟨s1, o1, n1⟩
+  cases n1 with
+  | dispatch => simp only [handed_finish, handed_append]
+  | st x => simp only [handed_finish, List.append_nil]
+  | stop => simp only [handed_finish, List.append_nil]
+
+theorem driveRune_views (st0 : PSt) (T : Table) (sch : List Slot) (s : PState) (acc acc' : Acc) (r : Nat)
+    (h : WInv st0 acc) (hd : driveRune T sch s acc r = some acc') :
+    acc'.views.map (·.auto) = acc.views.map (·.auto) ++ handed (Model.Parser.step T s (.rune r)).out := by
+  obtain ⟨acc1, sch1, e1, w1⟩ := driveActs_spec st0 (T.anywhere.row (.rune r)).1 r s sch acc h
+  have v1 := driveActs_views st0 _ r s sch acc h _ e1 [] (T.anywhere.row (.rune r)).2 (acc.views.map (·.auto))
+    (by simp [handed])
+  rw [← runFn_out_eq] at v1
+  simp only [driveRune, e1] at hd
+  rw [handed_step]
+  cases hn : (runFn T.anywhere (.rune r) s).2.2 with
+  | dispatch =>
+    simp only [hn] at hd ⊢
+    cases hd2 : driveActs ((T.fn (runFn T.anywhere (.rune r) s).1.state).row (.rune r)).1 r
+        (runFn T.anywhere (.rune r) s).1 sch1 acc1 with
+    | none => simp [hd2] at hd
+    | some res =>
+      simp only [hd2, Option.map_some, Option.some.injEq] at hd
+      subst hd
+      have v2 := driveActs_views st0 _ r _ sch1 acc1 w1 _ hd2 []
+        ((T.fn (runFn T.anywhere (.rune r) s).1.state).row (.rune r)).2 (acc1.views.map (·.auto)) (by simp [handed])
+      rw [← runFn_out_eq] at v2
+      rw [v2, v1, List.append_assoc]
+  | st x =>
+    simp only [hn, Option.some.injEq] at hd ⊢
+    subst hd
+    simpa using v1
+  | stop =>
+    simp only [hn, Option.some.injEq] at hd ⊢
+    subst hd
+    simpa using v1
+
 theorem WInv_init : WInv PSt.init ({} : Acc) :=
   ⟨⟨PInv_init, rfl⟩, rfl, fun _ hv => (by cases hv), fun x hx => (by have h0 : x ∈ ([] : List PDeliv) := hx; cases h0)⟩
 
@@ -546,6 +729,26 @@ theorem drun_spec (T : Table) (ls : List DLabel) (d : DSt) (h : WInv PSt.init d.
     | cons c =>
       simp only [drun, dstep]
       exact ih _ (consStep_winv _ _ c h)
+
+/-- Along the composite, the hand-overs recorded are the CSI items with parameters on the channel. -/
+theorem drun_views (T : Table) (ls : List DLabel) (d d' : DSt) (h : WInv PSt.init d.acc)
+    (hv : d.acc.views.map (·.auto) = handed d.out) (hd : drun T d ls = some d') :
+    d'.acc.views.map (·.auto) = handed d'.out := by
+  induction ls generalizing d with
+  | nil => simp only [drun, Option.some.injEq] at hd; subst hd; exact hv
+  | cons l rest ih =>
+    cases l with
+    | rune r sch =>
+      obtain ⟨acc', e1, e2⟩ := driveRune_spec PSt.init T sch d.ps d.acc r h
+      simp only [drun, dstep, e1] at hd
+      refine ih _ e2 ?_ hd
+      simp only [handed_append, ← hv]
+      exact driveRune_views PSt.init T sch d.ps d.acc acc' r h e1
+    | cons c =>
+      simp only [drun, dstep] at hd
+      refine ih _ (consStep_winv _ _ c h) ?_ hd
+      rw [(consStep_spec PSt.init d.acc c .idle [] [] h.a h.idle).2.2]
+      exact hv
 
 /-- Every prefix of a run is a run (the states in the middle of a `csiDispatch` included). -/
 theorem prun_take (ls : List PLabel) (s s' : PSt) (h : prun s ls = some s') (n : Nat) :
@@ -592,5 +795,44 @@ theorem drun_automaton (T : Table) (ls : List DLabel) (d d' : DSt) (h : drun T d
       | cons c =>
         simp only [dstep, Option.some.injEq] at hs
         subst hs; simpa [runesOf] using this
+
+/-! ### the expansion read off the statement skeleton of `csiDispatch`
+
+Nothing here mentions a particular statement list: `OpsStep` says what the `switch` of the loop has
+to issue and compute; `Props/C08DriveParams.lean` proves it for the regenerated body by evaluation. -/
+
+section Body
+open VaxisModel.Model.ParserActs
+
+/-- `ps *= 10; ps += d` with a wrap after each operation = one wrap of the exact result. -/
+theorem wrap64_mul_add (a d : Int) : wrap64 (wrap64 (a * 10) + d) = wrap64 (a * 10 + d) := by
+  unfold wrap64; omega
+
+/-- What one iteration of the loop (`switch b { … }`) must issue, and leave in `ps`. -/
+def OpsStep (cases : List (Nat × List LoopOp)) (dflt : List LoopOp) : Prop :=
+  ∀ (b : Rune) (st : LoopSt),
+    (opsOfOps b (findCase cases dflt b) st).1 =
+      (if b = 0x3B then [.app st.ps, .push, .get] else if b = 0x3A then [.app st.ps] else []) ∧
+    (opsOfOps b (findCase cases dflt b) st).2.ps =
+      (if b = 0x3B then 0 else if b = 0x3A then 0 else wrap64 (st.ps * 10 + ((b : Int) - 0x30)))
+
+/-- A loop whose iteration is `OpsStep`, followed by `append(param, ps)`, `append(csi.Parameters, param)`,
+    `emit` = `loopOps`, from any decoder state. -/
+theorem opsOfLoop_sem (cases : List (Nat × List LoopOp)) (dflt : List LoopOp) (h : OpsStep cases dflt)
+    (bs : List Rune) (st : LoopSt) :
+    (opsOfLoop cases dflt bs st).1 ++ [.app (opsOfLoop cases dflt bs st).2.ps, .push, .emit] =
+      loopOps bs st.ps := by
+  induction bs generalizing st with
+  | nil => rfl
+  | cons b rest ih =>
+    simp only [opsOfLoop, loopOps, List.append_assoc]
+    rw [ih, (h b st).1, (h b st).2]
+    by_cases h1 : b = 0x3B
+    · simp only [h1, if_true]
+    · by_cases h2 : b = 0x3A
+      · simp only [h2, if_true]; rfl
+      · simp only [h1, h2, if_false, List.nil_append]
+
+end Body
 
 end VaxisModel.Lemmas.ParserParamsDrive
